@@ -75,6 +75,15 @@ def program_for(bp, decl, seed, horizon=HORIZON, with_ic=None, region_mode='rand
         params[i] = {'alpha_income': _dec(rnd, 0.5, 0.9), 'alpha_fin': _dec(rnd, 0.1, 0.5),
                      'margin': rnd.choice([0.1, 0.2, 0.25]), 'taxrate': _dec(rnd, 0.1, 0.3),
                      'wgt': _dec(rnd, 0.2, 0.7), 'gift': _dec(rnd, 0.01, 0.09), 'gold': _dec(rnd, 10, 80, 0)}
+        # zero is an admissible value of a rate: one build in eight has an untaxed economy, a propensity of zero
+        # to consume out of wealth, or a gift rate of zero
+        z = rnd.random()
+        if z < 0.05:
+            params[i]['taxrate'] = 0.0
+        elif z < 0.09:
+            params[i]['alpha_fin'] = 0.0
+        elif z < 0.125:
+            params[i]['gift'] = 0.0
     declared = set()
     pending_tre = []
     # read-only questions asked while the model is being put together (they must not change anything): the
